@@ -20,7 +20,7 @@ from harness.common import TranslateError, ast_digest, src_text
 from translate import c15_norm
 
 # Formats whose codecs exist in the source but are deliberately NOT modelled (the oracle search covers them).
-NOT_MODELLED = {'rgb888_bluescreen', 'bgr888_bluescreen'}
+NOT_MODELLED: set[str] = set()      # round 4: the two bluescreen formats are translated (if statements -> ETest chains)
 # load-only (compressed) formats: not writable from Python, outside "all writable image formats".
 LOAD_ONLY_OK = {'dxt1', 'dxt1_onebitalpha', 'dxt3', 'dxt5', 'ati2n'}
 
@@ -273,18 +273,90 @@ class _Codec:
         lv = node.target.id
         self.style.add('loop')
         for st in node.body:
-            if not isinstance(st, ast.Assign):
-                _err(st, f'{self.fn.name}: unsupported statement in pixel loop: {ast.unparse(st)[:60]}')
-            tgts = st.targets
-            if len(tgts) == 1 and isinstance(tgts[0], (ast.Tuple, ast.List)):
-                elts = tgts[0].elts
-                vals = self.values(st.value, len(elts), self.env, lv)
-                for t, v in zip(elts, vals):
-                    self.store(t, v, lv)
-            else:
-                v = self.expr(st.value, self.env, lv)
-                for t in tgts:
-                    self.store(t, v, lv)
+            if isinstance(st, ast.If):
+                self.branch(st, lv)
+                continue
+            self.assign(st, lv)
+
+    def assign(self, st: ast.stmt, lv: str) -> None:
+        if not isinstance(st, ast.Assign):
+            _err(st, f'{self.fn.name}: unsupported statement in pixel loop: {ast.unparse(st)[:60]}')
+        tgts = st.targets
+        if len(tgts) == 1 and isinstance(tgts[0], (ast.Tuple, ast.List)):
+            elts = tgts[0].elts
+            vals = self.values(st.value, len(elts), self.env, lv)
+            for t, v in zip(elts, vals):
+                self.store(t, v, lv)
+        else:
+            v = self.expr(st.value, self.env, lv)
+            for t in tgts:
+                self.store(t, v, lv)
+
+    # -- `if` statements in the pixel loop (the bluescreen codecs): both branches must assign the same outputs
+    def condition(self, test: ast.expr, lv: str):
+        """-> wrap(then_ir, else_ir): the choice as ETest chains, valid for byte-valued operands.
+        `E < 128` is "bit 7 of E is clear"; `E == c` (c a byte literal) is "all eight bits of E are those of c", tested from
+        bit 7 down (Fmt/VtfBluescreen.v eq_chain); a conjunction of equalities (`a == b == 0` means a == 0 and b == 0) nests
+        them, ordered by the index of the tested byte (`and` is commutative: a reordered source gives the same chain)."""
+        if isinstance(test, ast.Compare) and len(test.ops) == 1 and isinstance(test.ops[0], (ast.Lt, ast.GtE)) \
+                and isinstance(test.comparators[0], ast.Constant) and test.comparators[0].value == 128:
+            e = self.expr(test.left, self.env, lv)
+            if isinstance(test.ops[0], ast.Lt):
+                return lambda t, f: ('test', e, 7, f, t)
+            return lambda t, f: ('test', e, 7, t, f)
+        conj = test.values if isinstance(test, ast.BoolOp) and isinstance(test.op, ast.And) else [test]
+        eqs: list[tuple[tuple, int]] = []
+        for c in conj:
+            if not (isinstance(c, ast.Compare) and all(isinstance(o, ast.Eq) for o in c.ops)):
+                _err(c, f'{self.fn.name}: unsupported condition {ast.unparse(c)}')
+            parts = [c.left, *c.comparators]
+            consts = [x.value for x in parts if isinstance(x, ast.Constant) and type(x.value) is int]
+            others = [x for x in parts if not (isinstance(x, ast.Constant) and type(x.value) is int)]
+            if len(consts) != 1 or not others or not 0 <= consts[0] < 256:
+                _err(c, f'{self.fn.name}: equality test without exactly one byte literal: {ast.unparse(c)}')
+            for x in others:
+                e = self.expr(x, self.env, lv)
+                if e[0] != 'var':
+                    _err(x, f'{self.fn.name}: equality test on something that is not one input byte: {ast.unparse(x)}')
+                eqs.append((e, consts[0]))
+        if len({e for e, _ in eqs}) != len(eqs):
+            _err(test, f'{self.fn.name}: the same byte is tested twice')
+        eqs.sort(key=lambda ec: ec[0][1])
+
+        def eq_byte(x, c, yes, no):
+            r = yes
+            for k in range(8):          # bit 0 innermost ... bit 7 outermost
+                r = ('test', x, k, r, no) if (c >> k) & 1 else ('test', x, k, no, r)
+            return r
+
+        def wrap(t, f):
+            r = t
+            for x, c in reversed(eqs):
+                r = eq_byte(x, c, r, f)
+            return r
+        return wrap
+
+    def branch(self, st: ast.If, lv: str) -> None:
+        wrap = self.condition(st.test, lv)
+        if not st.orelse:
+            _err(st, f'{self.fn.name}: if without else in the pixel loop')
+        saved_out, saved_env = self.out, self.env
+        res = []
+        for body in (st.body, st.orelse):
+            self.out, self.env = {}, dict(saved_env)
+            for b in body:
+                if isinstance(b, ast.If):
+                    _err(b, f'{self.fn.name}: nested if in the pixel loop')
+                self.assign(b, lv)
+            if any(k not in saved_env or self.env[k] != saved_env[k] for k in self.env):
+                _err(st, f'{self.fn.name}: a branch binds a local')
+            res.append(self.out)
+        self.out, self.env = saved_out, saved_env
+        if sorted(res[0]) != sorted(res[1]):
+            _err(st, f'{self.fn.name}: the branches assign different outputs: {sorted(res[0])} / {sorted(res[1])}')
+        for k in res[0]:
+            self.out[k] = wrap(res[0][k], res[1][k])
+        self.style.add('if')
 
     # -- slice copies
     def slice_of(self, node: ast.expr) -> tuple[str, int, int] | None:
